@@ -69,6 +69,7 @@ func genScenario(rt *rapid.T, p Profile) Scenario {
 	}
 	nLogged := 0
 	hasDelete := map[int]bool{}
+	hasLost, hasHard := map[string]bool{}, map[string]bool{}
 	for i := 0; i < ns; i++ {
 		// faults and crashes between requests
 		if p.Faults && rapid.IntRange(0, 2).Draw(rt, "fault") == 0 {
@@ -105,9 +106,29 @@ func genScenario(rt *rapid.T, p Profile) Scenario {
 		}
 		if p.FaultInSync && rapid.IntRange(0, 3).Draw(rt, "faultinsync") == 0 {
 			t := ids[rapid.IntRange(0, len(ids)-1).Draw(rt, "fistarget")]
-			kind := []string{"flapinsync", "restartinsync"}[rapid.IntRange(0, 1).Draw(rt, "fiskind")]
+			kind := []string{"flapinsync", "restartinsync", "faults"}[rapid.IntRange(0, 2).Draw(rt, "fiskind")]
 			// armed now, fired by the next re-synchronisation: make one happen
-			sc.Actions = append(sc.Actions, Action{Kind: kind, Target: t, Idle: true})
+			if kind == "faults" {
+				// the device answers the re-synchronisation itself with errors for a while (any class: a
+				// re-synchronisation is repeated until it has gone through)
+				n := rapid.IntRange(1, 3).Draw(rt, "fisburst")
+				var cs []int
+				for k := 0; k < n; k++ {
+					c := []int{14, 13, 4, 3, 1, 2}[rapid.IntRange(0, 5).Draw(rt, "fiscode")]
+					// a device that silently executed a request (lost answer) and then REFUSES its repetition leaves
+					// nobody able to tell what it holds: hard refusals are not injected on such a target
+					if hasLost[t] && (c == 13 || c == 3 || c == 2) {
+						c = 14
+					}
+					if c == 13 || c == 3 || c == 2 {
+						hasHard[t] = true
+					}
+					cs = append(cs, c)
+				}
+				sc.Actions = append(sc.Actions, Action{Kind: "faults", Target: t, Codes: cs, Idle: true})
+			} else {
+				sc.Actions = append(sc.Actions, Action{Kind: kind, Target: t, Idle: true})
+			}
 			if online[t] {
 				sc.Actions = append(sc.Actions, Action{Kind: "linkdown", Target: t}, Action{Kind: "linkup", Target: t})
 			} else {
@@ -122,9 +143,10 @@ func genScenario(rt *rapid.T, p Profile) Scenario {
 			for k := 0; k < n; k++ {
 				cs = append(cs, []int{14, 1, 4}[rapid.IntRange(0, 2).Draw(rt, "tcode")])
 			}
-			if rapid.IntRange(0, 2).Draw(rt, "lost") == 0 {
+			if rapid.IntRange(0, 2).Draw(rt, "lost") == 0 && !hasHard[t] {
 				// the device executes the request, the answer is lost (only timeouts: a
 				// device that answers Unavailable has not executed anything)
+				hasLost[t] = true
 				for k := range cs {
 					cs[k] = 4
 				}
@@ -241,9 +263,12 @@ func describeScenario(sc Scenario) map[string]any {
 	return map[string]any{"targets": tg, "mode": mode, "drawn_schedule": sc.Drawn, "actions": acts}
 }
 
-// paceActions makes about a third of the actions wait until everything earlier has settled: without pacing
-// nearly all actions of a drawn schedule are performed before the first change is applied.
+// paceActions makes, in half of the scenarios, about a third of the actions wait until everything earlier has
+// settled: without pacing nearly all actions of a drawn schedule are performed before the first change is applied.
 func paceActions(rt *rapid.T, sc *Scenario) {
+	if rapid.IntRange(0, 1).Draw(rt, "paced") == 0 {
+		return // half of the scenarios stay unpaced: maximal overlap of requests
+	}
 	for i := range sc.Actions {
 		if rapid.IntRange(0, 2).Draw(rt, "idle") == 0 {
 			sc.Actions[i].Idle = true
